@@ -4,7 +4,7 @@
    CENTRED data (what np.dot(values.T, values) works on). *)
 From Coq Require Import List Reals Permutation QArith.
 From FDAV Require Import Base.Num Base.Vec Base.Quad Model.Stats Gen.Consts
-  Lemmas.Vec Lemmas.Gram Lemmas.Stats Lemmas.NoiseConst Lemmas.CovPerm Lemmas.CovShift.
+  Lemmas.Vec Lemmas.Gram Lemmas.Stats Lemmas.NoiseConst Lemmas.CovPerm Lemmas.CovShift Gen.Helpers Lemmas.GenHelpers.
 Import ListNotations.
 Local Open Scope R_scope.
 
@@ -87,6 +87,21 @@ Print Assumptions C09_diffseq_facts.
 Theorem C09_diffseq_orders : map fst diff_sequences = seq 1 10.
 Proof. exact diff_sequences_orders. Qed.
 Print Assumptions C09_diffseq_orders.
+(* ---------- the estimator as TRANSLATED from /repo/FDApy/misc/utils.py on this run (Gen/Helpers.v) ----------
+   _estimate_noise_variance, as the source reads now, applied with the difference sequences the source holds now
+   (dgetR = DIFF_SEQUENCES.get, Gen/Consts.v): raises exactly for orders outside 1..10; otherwise it is the model
+   estimator on the sequence of that order — non-negative, scaling with the square of a factor, zero for curves
+   shorter than order + 1.  (np.nanmean is read as the mean: curves without NaN.) *)
+Theorem C09_source_noise_estimator : forall order x,
+  ((order < 1 \/ 10 < order)%nat -> gen_noise_var1 opsR dgetR order x = None) /\
+  ((1 <= order <= 10)%nat ->
+     gen_noise_var1 opsR dgetR order x = Some (noise_var1 opsR (dgetR order) x) /\
+     0 <= noise_var1 opsR (dgetR order) x /\
+     (forall a, gen_noise_var1 opsR dgetR order (vscale opsR a x) = Some (a * a * noise_var1 opsR (dgetR order) x)) /\
+     ((length x < order + 1)%nat -> noise_var1 opsR (dgetR order) x = 0)).
+Proof. exact source_noise_estimator. Qed.
+Print Assumptions C09_source_noise_estimator.
+
 (* dataset level: the average of the per-curve estimates — this is the definition of
    [noise_var]; the tie checks that the code computes exactly that. *)
 
